@@ -1,6 +1,11 @@
 import WfProofs.Version
 import WfProofs.VersionOrder
 import WfProofs.VersionRc
+import WfProofs.VersionChain
+import WfProofs.VersionIdem
+import WfProofs.VersionTag
+import WfProofs.VersionNewline
+import WfProofs.VersionPreserve
 /-!
 # C34 — release tooling converts and classifies versions consistently
 
@@ -270,3 +275,514 @@ theorem C34_prerelease_detected (v : Ver) (h : v.release ≠ []) :
   exact ⟨h1.trans e, h2.trans e⟩
 
 example : isRc ['1', '0', '.', '2', '0', 'b', '3'] = true ∧ isRc ['1', '0', '.', '2', '0'] = false := by decide
+
+/-! # Extension: order laws, chains of releases, idempotence, the tag pipeline -/
+
+/-- The PEP 440 order the tooling compares with is a strict total order on versions up
+to the equivalence `VerEq` (same zero-padded release, same pre-release -- `1.0` and
+`1.0.0`): irreflexive, transitive, exactly one of less / equivalent / greater; `verCmp`
+answers `eq` exactly on equivalent versions and `<=` (`verLe`) is total and transitive. -/
+theorem C34_order_strict_total :
+    (∀ a : Ver, ¬ Ver.Lt a a) ∧
+    (∀ a b c : Ver, Ver.Lt a b → Ver.Lt b c → Ver.Lt a c) ∧
+    (∀ a b : Ver, Ver.Lt a b ∨ VerEq a b ∨ Ver.Lt b a) ∧
+    (∀ a b : Ver, ¬ (Ver.Lt a b ∧ Ver.Lt b a) ∧ ¬ (Ver.Lt a b ∧ VerEq a b) ∧ ¬ (Ver.Lt b a ∧ VerEq a b)) ∧
+    (∀ a b : Ver, verCmp a b = .eq ↔ VerEq a b) ∧
+    (∀ a b : Ver, verLe a b = true ∨ verLe b a = true) ∧
+    (∀ a b c : Ver, verLe a b = true → verLe b c = true → verLe a c = true) := by
+  refine ⟨Ver.Lt.irrefl, fun _ _ _ h g => h.trans g, Ver.Lt.trichotomy, ?_, verCmp_eq_iff, ?_, ?_⟩
+  · intro a b
+    exact ⟨fun h => h.1.asymm h.2, fun h => h.2.not_lt h.1, fun h => h.2.symm.not_lt h.1⟩
+  · intro a b
+    rw [verLe_iff_not_lt, verLe_iff_not_lt]
+    rcases Ver.Lt.trichotomy a b with h | h | h
+    · exact Or.inl h.asymm
+    · exact Or.inl h.symm.not_lt
+    · exact Or.inr h.asymm
+  · intro a b c
+    rw [verLe_iff_not_lt, verLe_iff_not_lt, verLe_iff_not_lt]
+    intro h1 h2 h3
+    -- c < a; from ¬ b < a: a < b or a ~ b; either way c < b, contradicting ¬ c < b
+    rcases Ver.Lt.trichotomy a b with h | h | h
+    · exact h2 (h3.trans h)
+    · exact h2 ((Ver.Lt.congr (VerEq.refl c) h).1 h3)
+    · exact h1 h
+
+example : VerEq ⟨[1, 0], some (.rc, 1)⟩ ⟨[1, 0, 0], some (.rc, 1)⟩ ∧
+    (⟨[1, 0], some (.rc, 1)⟩ : Ver) ≠ ⟨[1, 0, 0], some (.rc, 1)⟩ := by
+  refine ⟨⟨fun j => ?_, rfl⟩, by decide⟩
+  rcases j with _ | _ | _ | j <;> simp [comp]
+example : verCmp ⟨[1, 0], some (.rc, 1)⟩ ⟨[1, 0, 0], some (.rc, 1)⟩ = .eq := by decide
+
+/-- The classification only depends on the versions, not on how many trailing zeros
+their release tuples are written with: equivalent versions classify alike, as the new
+and as the previous version. -/
+theorem C34_classify_respects_equality (c c' p p' : Ver) (hc : VerEq c c') (hp : VerEq p p') :
+    classify c p = classify c' p' := by
+  have e0 := pad3_getD c.release 0 (by omega)
+  have e1 := pad3_getD c.release 1 (by omega)
+  have e2 := pad3_getD c.release 2 (by omega)
+  have f0 := pad3_getD p.release 0 (by omega)
+  have f1 := pad3_getD p.release 1 (by omega)
+  have f2 := pad3_getD p.release 2 (by omega)
+  have e0' := pad3_getD c'.release 0 (by omega)
+  have e1' := pad3_getD c'.release 1 (by omega)
+  have e2' := pad3_getD c'.release 2 (by omega)
+  have f0' := pad3_getD p'.release 0 (by omega)
+  have f1' := pad3_getD p'.release 1 (by omega)
+  have f2' := pad3_getD p'.release 2 (by omega)
+  unfold classify
+  rw [verLe_congr hc hp, e0, e1, e2, f0, f1, f2, e0', e1', e2', f0', f1', f2',
+    hc.1 0, hc.1 1, hc.1 2, hp.1 0, hp.1 1, hp.1 2]
+
+example : classify ⟨[1, 3], none⟩ ⟨[1, 2, 0, 0], none⟩ = classify ⟨[1, 3, 0, 0], none⟩ ⟨[1, 2], none⟩ := by decide
+
+/-- **Every answer characterised** (both directions, all pairs of versions): `major` iff
+the new version is greater and its first component grew; `minor` iff it is greater, the
+first components agree and either the second grew or the first three all agree (growth
+beyond the third component or in the pre-release only -- the documented reading);
+`patch` iff it is greater, the first two agree and the third grew; `none` otherwise. -/
+theorem C34_classify_characterisation (c p : Ver) :
+    (classify c p = .none ↔ ¬ Ver.Lt p c) ∧
+    (classify c p = .major ↔ Ver.Lt p c ∧ comp p.release 0 < comp c.release 0) ∧
+    (classify c p = .minor ↔ Ver.Lt p c ∧ comp c.release 0 = comp p.release 0 ∧
+        (comp p.release 1 < comp c.release 1 ∨
+         (comp c.release 1 = comp p.release 1 ∧ comp c.release 2 = comp p.release 2))) ∧
+    (classify c p = .patch ↔ Ver.Lt p c ∧ comp c.release 0 = comp p.release 0 ∧
+        comp c.release 1 = comp p.release 1 ∧ comp p.release 2 < comp c.release 2) := by
+  refine ⟨C34_none_iff_not_greater c p, ?_, ?_, ?_⟩ <;>
+  · by_cases h : Ver.Lt p c
+    · have hs := fd3_spec p.release c.release
+      have hg := h.fd3_grows
+      have hle3 := fd3_le p.release c.release
+      rw [classify_of_lt h]
+      have hcase : fd3 p.release c.release = 0 ∨ fd3 p.release c.release = 1 ∨ fd3 p.release c.release = 2 ∨
+          fd3 p.release c.release = 3 := by omega
+      rcases hcase with h0 | h0 | h0 | h0
+      · rw [h0] at hg hs ⊢
+        have := hg (by omega)
+        simp only [changeName3, changeName, h, true_and]
+        simp <;> omega
+      · rw [h0] at hg hs ⊢
+        have := hg (by omega)
+        have := hs.1 0 (by omega)
+        simp only [changeName3, changeName, h, true_and]
+        simp <;> omega
+      · rw [h0] at hg hs ⊢
+        have := hg (by omega)
+        have := hs.1 0 (by omega)
+        have := hs.1 1 (by omega)
+        simp only [changeName3, changeName, h, true_and]
+        simp <;> omega
+      · rw [h0] at hs ⊢
+        have := hs.1 0 (by omega)
+        have := hs.1 1 (by omega)
+        have := hs.1 2 (by omega)
+        simp only [changeName3, h, true_and]
+        simp <;> omega
+    · rw [classify_of_not_lt h]
+      simp [h]
+
+example : classify ⟨[1, 2, 3], some (.rc, 2)⟩ ⟨[1, 2, 3], some (.rc, 1)⟩ = .minor := by decide
+example : Ver.Lt ⟨[1, 2, 3], some (.rc, 1)⟩ ⟨[1, 2, 3], some (.rc, 2)⟩ :=
+  Or.inr ⟨fun _ => rfl, Or.inr ⟨rfl, by omega⟩⟩
+
+/-- **Release histories.**  For every ascending chain of versions `v₀ < v₁ < … < vₙ`
+(any length, any release lengths, pre-releases included): the classification of the
+newest against the oldest is never `none` and is determined by the most significant
+position any single step touched (`minFd`; the final `minor` when no step touched one of
+the first three components).  Hence it is `major` exactly when some step is classified
+`major`; and when every step touches one of the first three components, its severity
+(`patch < minor < major`) is the maximum of the steps' severities. -/
+theorem C34_chain_classification (v0 : Ver) (vs : List Ver) (h : Ascending (v0 :: vs)) (hne : vs ≠ []) :
+    classify ((v0 :: vs).getLast (by simp)) v0 = changeName3 (minFd (v0 :: vs)) ∧
+    classify ((v0 :: vs).getLast (by simp)) v0 ≠ .none ∧
+    (classify ((v0 :: vs).getLast (by simp)) v0 = .major ↔ Change.major ∈ stepChanges (v0 :: vs)) ∧
+    (Steps3 (v0 :: vs) →
+      (classify ((v0 :: vs).getLast (by simp)) v0).sev = maxSev (stepChanges (v0 :: vs))) := by
+  have hlt := h.lt_last hne
+  have hfd := h.fd3_last
+  simp only [hne, if_false] at hfd
+  have hcl : classify ((v0 :: vs).getLast (by simp)) v0 = changeName3 (minFd (v0 :: vs)) := by
+    rw [classify_of_lt hlt, hfd]
+  have hle := minFd_le (v0 :: vs)
+  refine ⟨hcl, ?_, ?_, ?_⟩
+  · exact fun hn => (C34_none_iff_not_greater _ _).1 hn hlt
+  · rw [hcl, mem_stepChanges_major h]
+    have hcase : minFd (v0 :: vs) = 0 ∨ minFd (v0 :: vs) = 1 ∨ minFd (v0 :: vs) = 2 ∨ minFd (v0 :: vs) = 3 := by omega
+    rcases hcase with h0 | h0 | h0 | h0 <;> rw [h0] <;> simp [changeName3, changeName]
+  · intro h3
+    have hlen : 2 ≤ (v0 :: vs).length := by
+      cases vs with
+      | nil => exact absurd rfl hne
+      | cons _ _ => simp
+    rw [maxSev_steps h h3 hlen, hcl]
+    -- Steps3 forces minFd < 3
+    have hm : minFd (v0 :: vs) < 3 := by
+      cases vs with
+      | nil => exact absurd rfl hne
+      | cons b rest =>
+        have := h3.1
+        have := minFd_le (b :: rest)
+        simp only [minFd]; omega
+    exact changeName3_sev _ hm
+
+/-- a history with a patch step, a release candidate, a minor step and a four-component step -/
+example : Ascending [⟨[1, 2, 3], none⟩, ⟨[1, 2, 4], some (.rc, 1)⟩, ⟨[1, 2, 4], none⟩, ⟨[1, 3], none⟩, ⟨[1, 3, 0, 1], none⟩] :=
+  ⟨(verCmp_lt_iff _ _).1 (by decide), (verCmp_lt_iff _ _).1 (by decide), (verCmp_lt_iff _ _).1 (by decide),
+    (verCmp_lt_iff _ _).1 (by decide), trivial⟩
+example : stepChanges [⟨[1, 2, 3], none⟩, ⟨[1, 2, 4], some (.rc, 1)⟩, ⟨[1, 2, 4], none⟩, ⟨[1, 3], none⟩, ⟨[1, 3, 0, 1], none⟩] =
+    [.patch, .minor, .minor, .minor] ∧ classify ⟨[1, 3, 0, 1], none⟩ ⟨[1, 2, 3], none⟩ = .minor := by decide
+example : Steps3 [⟨[1, 2, 3], none⟩, ⟨[1, 2, 4], none⟩, ⟨[2], none⟩] := ⟨by decide, by decide, trivial⟩
+
+/-- The hypothesis `Steps3` of the last clause cannot be dropped: a step that only
+touches the fourth component is classified `minor` (the function's final `return`), so
+`1.2.3.4 → 1.2.3.5 → 1.2.4` has steps `minor, patch` but ends `patch`. -/
+theorem C34_chain_guard_needed :
+    ∃ v0 vs, Ascending (v0 :: vs) ∧ vs ≠ [] ∧ ¬ Steps3 (v0 :: vs) ∧
+      stepChanges (v0 :: vs) = [.minor, .patch] ∧
+      classify ((v0 :: vs).getLast (by simp)) v0 = .patch ∧
+      (classify ((v0 :: vs).getLast (by simp)) v0).sev < maxSev (stepChanges (v0 :: vs)) := by
+  exact ⟨⟨[1, 2, 3, 4], none⟩, [⟨[1, 2, 3, 5], none⟩, ⟨[1, 2, 4], none⟩],
+    ⟨(verCmp_lt_iff _ _).1 (by decide), (verCmp_lt_iff _ _).1 (by decide), trivial⟩, by simp,
+    fun h => absurd h.1 (by decide), by decide, by decide, by decide⟩
+
+/-- **Idempotence on every string**: whatever `semver_to_pep440` returns it leaves
+unchanged when applied again (no hypothesis on the input: Unicode digits, foreign
+labels, garbage included); whatever `pep440_to_semver` returns is a fixed point of
+`pep440_to_semver`, and normalising twice is normalising once. -/
+theorem C34_conversions_idempotent (s t : List Char) :
+    (semverToPep s = .ok t → semverToPep t = .ok t) ∧
+    (pepToSemver s = .ok t → pepToSemver t = .ok t) ∧
+    (normalize s = .ok t → normalize t = .ok t ∧ pepToSemver t = pepToSemver s) := by
+  refine ⟨semverToPep_idem s t, ?_, ?_⟩
+  · intro h
+    unfold pepToSemver at h
+    cases hp : parsePep s with
+    | none => rw [hp] at h; cases h
+    | some v =>
+      rw [hp] at h
+      simp only [Res.ok.injEq] at h
+      subst h
+      simp [pepToSemver, (C34_parse_printed v (parsePep_release_ne_nil hp)).2]
+  · intro h
+    unfold normalize at h
+    cases hp : parsePep s with
+    | none => rw [hp] at h; cases h
+    | some v =>
+      rw [hp] at h
+      simp only [Res.ok.injEq] at h
+      subst h
+      simp [normalize, pepToSemver, hp, (C34_parse_printed v (parsePep_release_ne_nil hp)).1]
+
+example : semverToPep ['1', '.', '2', '-', 'r', 'c', '.', '3'] = .ok ['1', '.', '2', 'r', 'c', '3'] ∧
+    semverToPep ['1', '.', '2', 'r', 'c', '3'] = .ok ['1', '.', '2', 'r', 'c', '3'] := by decide
+example : semverToPep [Char.ofNat 0x661, '-', 'b', '.', Char.ofNat 0x662] = .ok [Char.ofNat 0x661, 'b', Char.ofNat 0x662] := by decide
+
+/-- **`semver_to_pep440` never changes the version a string denotes.**  For *every* string
+`s` that `packaging` reads as a release / pre-release version `v` -- any spelling: semver
+or PEP 440 form, leading zeros, upper case, `alpha`/`c`/`preview`, surrounding white
+space, a final newline -- `semver_to_pep440 s` either raises its label error or returns
+a string that `packaging` reads as the same `v`, whose conversion back is the canonical
+semver of `v` and whose normal form is the canonical PEP 440 of `v`.  (Inversion of the
+scanner, of the regex match and of the PEP 440 parser: accepted strings are ASCII, so the
+Unicode digits `\d` admits cannot occur.) -/
+theorem C34_semver_to_pep_preserves_version (s : List Char) (v : Ver) (hs : parsePep s = some v) :
+    semverToPep s = .labelError ∨
+    ∃ t, semverToPep s = .ok t ∧ parsePep t = some v ∧
+      pepToSemver t = .ok (showSemver v) ∧ normalize t = .ok (showPep v) := by
+  cases h : semverToPep s with
+  | labelError => exact Or.inl rfl
+  | outside =>
+    exfalso
+    unfold semverToPep at h
+    split at h
+    · cases h
+    · split at h <;> cases h
+  | ok t =>
+    right
+    have hp := semverToPep_preserves s t v hs h
+    exact ⟨t, rfl, hp, by simp [pepToSemver, hp], by simp [normalize, hp]⟩
+
+/-- the label error on a string packaging accepts, and a converted upper-case-free spelling -/
+example : parsePep ['1', '.', '0', '-', 'R', 'C', '.', '1'] = some ⟨[1, 0], some (.rc, 1)⟩ ∧
+    semverToPep ['1', '.', '0', '-', 'R', 'C', '.', '1'] = .labelError := by decide
+example : semverToPep ['0', '1', '.', '0', '-', 'r', 'c', '.', '0', '1', '\n'] = .ok ['0', '1', '.', '0', 'r', 'c', '0', '1'] ∧
+    parsePep ['0', '1', '.', '0', 'r', 'c', '0', '1'] = some ⟨[1, 0], some (.rc, 1)⟩ := by decide
+example : semverToPep [' ', '1', '.', '0', '-', 'r', 'c', '.', '1'] = .ok [' ', '1', '.', '0', '-', 'r', 'c', '.', '1'] := by decide
+
+/-- **semver → PEP 440 → semver with a final newline** (a version read from a file or a
+command's output): `$` of the semver regex matches before it, so a pre-release is
+converted and the newline dropped; a final release passes through with its newline,
+which `packaging` ignores; either way converting back yields the normalized original. -/
+theorem C34_roundtrip_semver_trailing_newline (r : Raw) (h : r.WF) :
+    semverToPep (r.semver ++ ['\n']) = .ok (if r.pre.isSome then r.pep else r.semver ++ ['\n']) ∧
+    pepToSemver (if r.pre.isSome then r.pep else r.semver ++ ['\n']) = .ok (showSemver r.val) ∧
+    pepToSemver (r.semver ++ ['\n']) = .ok (showSemver r.val) := by
+  have hm := semverMatch_semver_newline r h
+  have hp := parsePep_semver_newline r h
+  refine ⟨?_, ?_, by simp [pepToSemver, hp]⟩
+  · unfold semverToPep
+    rw [hm]
+    cases hpre : r.pre with
+    | none => simp
+    | some p =>
+      obtain ⟨l, num⟩ := p
+      have hl : l.chars ∈ Gen.Version.labels := by cases l <;> decide
+      simp [Raw.pep, hpre, hl]
+  · cases hpre : r.pre with
+    | none =>
+      have hp' := hp
+      simp only [Option.isSome_none, Bool.false_eq_true, if_false]
+      simp [pepToSemver, hp']
+    | some p =>
+      simp only [Option.isSome_some, if_true]
+      simp [pepToSemver, parsePep_pep r h]
+
+example : semverToPep ['1', '.', '2', '-', 'r', 'c', '.', '3', '\n'] = .ok ['1', '.', '2', 'r', 'c', '3'] := by decide
+example : semverToPep ['1', '.', '2', '\n'] = .ok ['1', '.', '2', '\n'] ∧ pepToSemver ['1', '.', '2', '\n'] = .ok ['1', '.', '2'] := by decide
+
+/-- White space around a version (any of the 29 code points `\s` matches, any amount)
+is invisible to every function that goes through `Version(...)`: both conversions from
+PEP 440 and the normal form are those of the bare string, for both spellings with
+arbitrary digit runs. -/
+theorem C34_whitespace_irrelevant (r : Raw) (h : r.WF) (pre post : List Char)
+    (hpre : ∀ c ∈ pre, isSpace c = true) (hpost : ∀ c ∈ post, isSpace c = true) :
+    pepToSemver (pre ++ r.pep ++ post) = .ok (showSemver r.val) ∧
+    normalize (pre ++ r.pep ++ post) = .ok (showPep r.val) ∧
+    pepToSemver (pre ++ r.semver ++ post) = .ok (showSemver r.val) := by
+  obtain ⟨d, t, hs, hd⟩ := r.pep_head h
+  obtain ⟨d', t', hs', hd'⟩ := r.semver_head h
+  have h1 := parsePep_pad hs hd (r.pep_endsDig h) pre post hpre hpost
+  have h2 := parsePep_pad hs' hd' (r.semver_endsDig h) pre post hpre hpost
+  rw [parsePep_pep r h] at h1
+  rw [parsePep_semver r h] at h2
+  exact ⟨by unfold pepToSemver; rw [h1], by unfold normalize; rw [h1], by unfold pepToSemver; rw [h2]⟩
+
+example : isSpace (Char.ofNat 0x2003) = true ∧ isSpace (Char.ofNat 0x85) = true := by decide
+example : pepToSemver [Char.ofNat 0x2003, '\t', '1', '.', '0', 'a', '1', Char.ofNat 0x85] = .ok ['1', '.', '0', '-', 'a', '.', '1'] := by decide
+
+/-- Different versions never share a spelling: both printers are injective (on release
+tuples of positive length), so neither conversion can merge two versions. -/
+theorem C34_spellings_injective (v w : Ver) (hv : v.release ≠ []) (hw : w.release ≠ []) :
+    (showPep v = showPep w → v = w) ∧ (showSemver v = showSemver w → v = w) := by
+  constructor
+  · intro h
+    have h1 := (C34_parse_printed v hv).1
+    have h2 := (C34_parse_printed w hw).1
+    rw [h, h2] at h1
+    exact (Option.some.inj h1).symm
+  · intro h
+    have h1 := (C34_parse_printed v hv).2
+    have h2 := (C34_parse_printed w hw).2
+    rw [h, h2] at h1
+    exact (Option.some.inj h1).symm
+
+example : showPep ⟨[1, 0], none⟩ ≠ showPep ⟨[1, 0, 0], none⟩ := by decide
+
+/-! ## the tag side -/
+
+/-- The sources of the tag functions (regenerated from `/repo` on every run) still have
+the shape the model `WfModel/VersionTag.lean` transcribes. -/
+theorem C34_tag_source_shape :
+    Gen.VersionTag.refsPrefix = ['r', 'e', 'f', 's', '/', 't', 'a', 'g', 's', '/'] ∧
+    Gen.VersionTag.refsReplacement = "" ∧
+    Gen.VersionTag.stripRefsRules = [
+      ("otherwise", "return tag.replace('refs/tags/', '') if tag.startswith('refs/tags/') else tag")] ∧
+    Gen.VersionTag.inferTagRules = [
+      ("'@' not in strip_refs_prefix(tag)", "raise ValueError"),
+      ("not ('@' not in strip_refs_prefix(tag)) and not strip_refs_prefix(tag).split('@', 1)[1].startswith('v')", "raise ValueError"),
+      ("not ('@' not in strip_refs_prefix(tag)) and not (not strip_refs_prefix(tag).split('@', 1)[1].startswith('v'))", "return TagMetadata(normalized=strip_refs_prefix(tag), tag_prefix=f'{strip_refs_prefix(tag).split('@', 1)[0]}@', tag_glob=f'{strip_refs_prefix(tag).split('@', 1)[0]}@v*')")] ∧
+    Gen.VersionTag.removePrefixRules = [
+      ("tag_prefix and not tag.startswith(tag_prefix)", "raise ValueError"),
+      ("tag_prefix and not (not tag.startswith(tag_prefix))", "return tag[len(tag_prefix):]"),
+      ("not (tag_prefix)", "return tag")] ∧
+    Gen.VersionTag.extractSemverRules = [
+      ("otherwise", "return remove_tag_prefix(strip_refs_prefix(tag), tag_prefix)[1:] if remove_tag_prefix(strip_refs_prefix(tag), tag_prefix).startswith('v') else remove_tag_prefix(strip_refs_prefix(tag), tag_prefix)")] ∧
+    Gen.VersionTag.suffixAndVersionRules = [
+      ("otherwise", "return (remove_tag_prefix(strip_refs_prefix(tag), tag_prefix), remove_tag_prefix(strip_refs_prefix(tag), tag_prefix)[1:] if remove_tag_prefix(strip_refs_prefix(tag), tag_prefix).startswith('v') else remove_tag_prefix(strip_refs_prefix(tag), tag_prefix))")] ∧
+    Gen.VersionTag.previousTagRules = [
+      ("current_tag in list(tags) and list(tags).index(current_tag) + 1 < len(list(tags))", "return list(tags)[list(tags).index(current_tag) + 1]"),
+      ("current_tag in list(tags) and not (list(tags).index(current_tag) + 1 < len(list(tags)))", "return None"),
+      ("not (current_tag in list(tags))", "return list(tags)[0] if list(tags) else None")] ∧
+    Gen.VersionTag.currentVersionRules = [
+      ("otherwise", "return (PyProjectContainer.parse(pyproject.read_text())[1].project.name, str(Version(PyProjectContainer.parse(pyproject.read_text())[1].project.version)))")] ∧
+    Gen.VersionTag.dockerTagsRules = [
+      ("not is_rc", "return [f'{f'{DOCKER_REGISTRY}/{image.imageName}'}:{version}', f'{f'{DOCKER_REGISTRY}/{image.imageName}'}:latest', f'{f'{DOCKER_REGISTRY}/{image.imageName}'}:{'.'.join(version.split('.')[:2])}']"),
+      ("not (not is_rc)", "return [f'{f'{DOCKER_REGISTRY}/{image.imageName}'}:{version}']")] ∧
+    Gen.VersionTag.tagCommandFlow = [
+      "(suffix, semver) = versioning.compute_suffix_and_version(tag, metadata.tag_prefix)",
+      "tags = git_utils.list_tags(Path.cwd(), metadata.tag_glob)",
+      "previous = git_utils.previous_tag(metadata.normalized, tags)",
+      "previous_version = versioning.extract_semver(previous, metadata.tag_prefix) if previous else None",
+      "change_type = versioning.detect_change_type(semver, previous_version)",
+      "metadata = versioning.infer_tag_metadata(tag)"] ∧
+    Gen.VersionTag.pyprojectVersionSites = [
+      "_resolve_template: semver_to_pep440(pkg.version)", "apply_sync_values: semver_to_pep440(pkg.version)"] :=
+  ⟨rfl, rfl, rfl, rfl, rfl, rfl, rfl, rfl, rfl, rfl, rfl, rfl⟩
+
+/-- **From a tag to the version string.**  For every package name without `@` and
+without the substring `refs/tags/`, and every version string `ver` without `/` (every
+printed version is one): the tag `<pkg>@v<ver>`, given bare or as `refs/tags/<pkg>@v<ver>`,
+is normalised to the bare tag, yields prefix `<pkg>@` and glob `<pkg>@v*`, suffix
+`v<ver>` and exactly `ver` as the version handed to `detect_change_type`. -/
+theorem C34_tag_pipeline (pkg ver : List Char) (hat : '@' ∉ pkg)
+    (hrefs : occursIn Gen.VersionTag.refsPrefix pkg = false) (hver : '/' ∉ ver)
+    (tag : List Char) (htag : tag = tagOf pkg ver ∨ tag = Gen.VersionTag.refsPrefix ++ tagOf pkg ver) :
+    stripRefs tag = tagOf pkg ver ∧
+    inferTagMetadata tag = some ⟨tagOf pkg ver, pkg ++ ['@'], pkg ++ ['@', 'v', '*']⟩ ∧
+    computeSuffixAndVersion tag (pkg ++ ['@']) = some ('v' :: ver, ver) ∧
+    extractSemver tag (pkg ++ ['@']) = some ver := by
+  have hocc := occursIn_refs_tagOf pkg ver hrefs hver
+  have hs : stripRefs tag = tagOf pkg ver := by
+    rcases htag with rfl | rfl
+    · exact stripRefs_plain _ hocc
+    · exact stripRefs_refs _ hocc
+  have hs2 : stripRefs (tagOf pkg ver) = tagOf pkg ver := stripRefs_plain _ hocc
+  have hinf := inferTagMetadata_normal pkg ver hat hs2
+  have hrm : removeTagPrefix (tagOf pkg ver) (pkg ++ ['@']) = some ('v' :: ver) := removeTagPrefix_pkg pkg _
+  refine ⟨hs, ?_, ?_, ?_⟩
+  · -- `inferTagMetadata` only looks at `stripRefs tag`
+    have : inferTagMetadata tag = inferTagMetadata (tagOf pkg ver) := by
+      unfold inferTagMetadata; rw [hs, hs2]
+    rw [this]; exact hinf
+  · simp [computeSuffixAndVersion, hs, hrm, dropLowerV]
+  · simp [extractSemver, hs, hrm, dropLowerV]
+
+example : occursIn Gen.VersionTag.refsPrefix "llama-index-workflows".toList = false := by decide
+example : inferTagMetadata "refs/tags/llama-index-workflows@v1.2.3-rc.1".toList =
+    some ⟨"llama-index-workflows@v1.2.3-rc.1".toList, "llama-index-workflows@".toList, "llama-index-workflows@v*".toList⟩ := by
+  decide
+example : extractSemver "refs/tags/pkg@v1.2.3-rc.1".toList "pkg@".toList = some "1.2.3-rc.1".toList := by decide
+/-- the hypotheses matter: `replace` removes *every* occurrence, and a foreign prefix is an error -/
+example : stripRefs "refs/tags/a/refs/tags/b@v1".toList = "a/b@v1".toList := by decide
+example : extractSemver "other@v1.2.3".toList "pkg@".toList = none := by decide
+example : inferTagMetadata "pkg@1.2.3".toList = none ∧ inferTagMetadata "pkg-v1.2.3".toList = none := by decide
+
+/-- the tags of a release history, newest first, spelled by `form` -/
+def C34_histTags (pkg : List Char) (form : Ver → List Char) (vs : List Ver) : List (List Char) :=
+  vs.map fun v => tagOf pkg (form v)
+
+/-- **The whole `compute-tag-metadata` command over every release history.**  Let the
+tag list be any strictly descending list of versions (newest first, as `list_tags`
+delivers it), every tag spelled `<pkg>@v<semver>` (or all in PEP 440 spelling).  Then for
+every tag of the list that has an older neighbour the command answers the classification
+of that version against its neighbour -- never `none`, naming the most significant
+component that grew (`changeName3 ∘ fd3`) -- and for the oldest tag it answers `major`;
+the `semver` output is the version string and the suffix is `v` + that string. -/
+theorem C34_history_pipeline (pkg : List Char) (hat : '@' ∉ pkg)
+    (hrefs : occursIn Gen.VersionTag.refsPrefix pkg = false)
+    (form : Ver → List Char) (hform : form = showSemver ∨ form = showPep)
+    (newer older : List Ver) (c : Ver)
+    (hdesc : List.Pairwise (fun a b => Ver.Lt b a) (newer ++ c :: older))
+    (hrel : ∀ v ∈ newer ++ c :: older, v.release ≠ [])
+    (tag : List Char) (htag : tag = tagOf pkg (form c) ∨ tag = Gen.VersionTag.refsPrefix ++ tagOf pkg (form c)) :
+    (∀ p rest, older = p :: rest →
+      tagChange tag (C34_histTags pkg form (newer ++ c :: older)) =
+        some ⟨'v' :: form c, form c, .ok (classify c p)⟩ ∧
+      classify c p ≠ .none ∧ classify c p = changeName3 (fd3 p.release c.release)) ∧
+    (older = [] →
+      tagChange tag (C34_histTags pkg form (newer ++ c :: older)) = some ⟨'v' :: form c, form c, .ok .major⟩) := by
+  -- facts about `form`
+  have hslash : ∀ v : Ver, '/' ∉ form v := by
+    intro v; rcases hform with rfl | rfl
+    · exact slash_not_mem_showSemver v
+    · exact slash_not_mem_showPep v
+  have hparse : ∀ v : Ver, v.release ≠ [] → parsePep (form v) = some v := by
+    intro v hv; rcases hform with rfl | rfl
+    · exact (C34_parse_printed v hv).2
+    · exact (C34_parse_printed v hv).1
+  have hc : c.release ≠ [] := hrel c (by simp)
+  obtain ⟨hstrip, hinf, hsv, _⟩ := C34_tag_pipeline pkg (form c) hat hrefs (hslash c) tag htag
+  -- the current tag is not among the newer ones
+  have hnotin : tagOf pkg (form c) ∉ newer.map fun v => tagOf pkg (form v) := by
+    intro hin
+    simp only [List.mem_map] at hin
+    obtain ⟨x, hx, hxe⟩ := hin
+    have hx' : x.release ≠ [] := hrel x (by simp [hx])
+    have e : form x = form c := tagOf_inj hxe
+    have hxc : x = c := by
+      have h1 := hparse x hx'
+      rw [e, hparse c hc] at h1
+      exact (Option.some.inj h1).symm
+    rw [List.pairwise_append] at hdesc
+    have := hdesc.2.2 x hx c (by simp)
+    rw [hxc] at this
+    exact Ver.Lt.irrefl c this
+  have hprev : ∀ rest : List Ver,
+      previousTag (tagOf pkg (form c)) (C34_histTags pkg form (newer ++ c :: rest)) =
+        (rest.map fun v => tagOf pkg (form v)).head? := by
+    intro rest
+    simp only [C34_histTags, List.map_append, List.map_cons]
+    exact previousTag_listed _ _ _ hnotin
+  constructor
+  · intro p rest hold
+    subst hold
+    have hp : p.release ≠ [] := hrel p (by simp)
+    have hlt : Ver.Lt p c := by
+      rw [List.pairwise_append] at hdesc
+      have := hdesc.2.1
+      rw [List.pairwise_cons] at this
+      exact this.1 p (by simp)
+    have hex : extractSemver (tagOf pkg (form p)) (pkg ++ ['@']) = some (form p) :=
+      (C34_tag_pipeline pkg (form p) hat hrefs (hslash p) _ (Or.inl rfl)).2.2.2
+    have hdet := (C34_detect_strings (form c) (form p) c p (hparse c hc) (hparse p hp)).1
+    have hne : tagOf pkg (form p) ≠ [] := by simp [tagOf]
+    refine ⟨?_, ?_, classify_of_lt hlt⟩
+    · unfold tagChange
+      rw [hinf]
+      simp only [hsv, hprev (p :: rest), List.map_cons, List.head?_cons, hne, if_false, hex, hdet]
+    · exact fun hn => (C34_none_iff_not_greater _ _).1 hn hlt
+  · intro hold
+    subst hold
+    unfold tagChange
+    rw [hinf]
+    simp only [hsv, hprev [], List.map_nil, List.head?_nil, detect]
+
+example : tagChange "refs/tags/pkg@v1.3.0-rc.1".toList
+    ["pkg@v1.3.0".toList, "pkg@v1.3.0-rc.1".toList, "pkg@v1.2.9".toList, "pkg@v1.2.8".toList] =
+    some ⟨"v1.3.0-rc.1".toList, "1.3.0-rc.1".toList, .ok .minor⟩ := by decide
+example : tagChange "pkg@v1.2.8".toList ["pkg@v1.3.0".toList, "pkg@v1.2.8".toList] =
+    some ⟨"v1.2.8".toList, "1.2.8".toList, .ok .major⟩ := by decide
+/-- the sortedness hypothesis matters: in the order `git tag --sort=-version:refname` prints (a release
+candidate *above* its final release) the candidate is compared against the final release -/
+example : tagChange "pkg@v1.3.0-rc.1".toList
+    ["pkg@v1.3.0-rc.1".toList, "pkg@v1.3.0".toList, "pkg@v1.2.9".toList] =
+    some ⟨"v1.3.0-rc.1".toList, "1.3.0-rc.1".toList, .ok .none⟩ := by decide
+example : List.Pairwise (fun a b : Ver => Ver.Lt b a) [⟨[1, 3, 0], none⟩, ⟨[1, 3, 0], some (.rc, 1)⟩] := by
+  simp only [List.pairwise_cons, List.mem_cons, List.not_mem_nil, or_false, forall_eq, false_imp_iff,
+    implies_true, List.Pairwise.nil, and_true]
+  exact Or.inr ⟨fun _ => rfl, trivial⟩
+
+/-- **The publish side** (package.json → pyproject → index / registry tags).  For every
+semver spelling with arbitrary digit runs: `semver_to_pep440` writes the PEP 440 spelling
+into `pyproject.toml`, `current_version` reads it back as the canonical PEP 440 string of
+the same version (which converts back to the canonical semver), `is_rc_version` of the
+package.json version says whether it is a pre-release, and `docker_image_tags` with that
+flag yields the version alone for a pre-release, and version, `latest` and
+`<major>.<minor>` (the first two release components) for a final release. -/
+theorem C34_publish_pipeline (r : Raw) (h : r.WF) :
+    semverToPep r.semver = .ok r.pep ∧
+    normalize r.pep = .ok (showPep r.val) ∧
+    pepToSemver (showPep r.val) = .ok (showSemver r.val) ∧
+    isRc r.semver = r.val.pre.isSome ∧
+    (r.pre.isSome → dockerTagParts r.semver (isRc r.semver) = [r.semver]) ∧
+    (r.pre = none → dockerTagParts r.semver (isRc r.semver) =
+      [r.semver, ['l', 'a', 't', 'e', 's', 't'], joinDot (r.comps.take 2)]) := by
+  have hrel : r.val.release ≠ [] := by simpa [Raw.val] using h.1
+  have hisrc := isRc_semver r h
+  have hpre : r.val.pre.isSome = r.pre.isSome := by cases hp : r.pre <;> simp [Raw.val, hp]
+  refine ⟨(C34_roundtrip_semver_leading_zeros r h).1, by simp [normalize, parsePep_pep r h],
+    (C34_roundtrip_pep440 r.val hrel).1, by rw [hisrc, hpre], ?_, ?_⟩
+  · intro hs
+    simp [dockerTagParts, hisrc, hs]
+  · intro hn
+    have hsem : r.semver = joinDot r.comps := by simp [Raw.semver, hn]
+    simp only [dockerTagParts, hisrc, hn, Option.isSome_none, Bool.false_eq_true, if_false]
+    rw [hsem, splitDots_joinDot r.comps h.1 h.2.1]
+
+example : dockerTagParts ['1', '.', '2', '.', '3'] (isRc ['1', '.', '2', '.', '3']) =
+    [['1', '.', '2', '.', '3'], ['l', 'a', 't', 'e', 's', 't'], ['1', '.', '2']] := by decide
+example : dockerTagParts ['1', '.', '2', '.', '3', '-', 'r', 'c', '.', '1'] (isRc ['1', '.', '2', '.', '3', '-', 'r', 'c', '.', '1']) =
+    [['1', '.', '2', '.', '3', '-', 'r', 'c', '.', '1']] := by decide
+example : dockerTagParts ['7'] false = [['7'], ['l', 'a', 't', 'e', 's', 't'], ['7']] := by decide
